@@ -244,7 +244,17 @@ def _sequential_table(p, led, tier, cascade, runfi):
                     except PyRaise as e:
                         return dict(raised=repr(e.exc), log=log)
                     f = r.fields if isinstance(r, Obj) else {}
-                    return dict(log=log, success=f.get("success"), out=f.get("final_output"), amp=f.get("total_amplification"), blocked=f.get("blocked_at"), inp=inp)
+                    # the per-stage outcomes the run reports, in order (a list of records each carrying an enum status)
+                    reported = None
+                    for v_ in f.values():
+                        if isinstance(v_, list) and v_ and all(isinstance(x, Obj) for x in v_):
+                            names = []
+                            for x in v_:
+                                en = [y for y in x.fields.values() if type(y).__name__ == "EnumVal"]
+                                names.append(en[0].name if len(en) == 1 else None)
+                            if all(n is not None for n in names):
+                                reported = names
+                    return dict(log=log, success=f.get("success"), out=f.get("final_output"), amp=f.get("total_amplification"), blocked=f.get("blocked_at"), inp=inp, reported=reported)
                 try:
                     paths = [r for _, r in explore(go, max_paths=3000)]
                 except Imprecise as e:
@@ -272,8 +282,18 @@ def _sequential_table(p, led, tier, cascade, runfi):
                         ers = [e for e in log if e[0] == "err" and e[1] == i]
                         if len(prs) > 1 or len(cps) > 1:
                             probs["C19-R1"].append(f"{tag}: stage {i} evaluated {len(cps)} gate(s) / ran {len(prs)} time(s)")
+                        rep = r.get("reported")
+                        reached = [k for k in range(len(combo)) if any(e[1] == k for e in log)]
+                        if rep is not None and (len(rep) != len(reached) or reached != list(range(len(reached)))):
+                            rep = None          # the report cannot be lined up with the stages by position
                         if cps and cps[-1][3] != 0:
                             status[i] = "gate-closed"
+                        elif prs and prs[-1][3] == 0 and ers:
+                            # the processor returned, yet the run turned to the stage's error handler: the run itself judged
+                            # the stage failed (a deadline, a rejected output): stricter than the statement asks, never looser
+                            status[i] = "recovered" if ers[-1][3] == 0 else "failed"
+                        elif prs and prs[-1][3] == 0 and rep is not None and i < len(rep) and "COMPLET" not in rep[i].upper():
+                            status[i] = "failed"          # likewise: reported as not completed although the processor returned
                         elif prs and prs[-1][3] == 0:
                             status[i] = "completed"
                         elif prs and ers and ers[-1][3] == 0:
